@@ -526,6 +526,7 @@ func handle(req Request) Response {
 					return resp
 				}
 				negative := false
+				textErr := ""
 				for _, v := range row {
 					if (v.T == "i" || v.T == "I") && v.V < 0 {
 						negative = true
@@ -543,6 +544,7 @@ func handle(req Request) Response {
 						return resp
 					}
 					negative = true
+					textErr = r.Msg
 				}
 				if negative {
 					// SQL text has no negative literals; such rows enter a table the way cmd/csvimport stores them:
@@ -569,6 +571,9 @@ func handle(req Request) Response {
 					})
 					if r.Err {
 						resp.Setup = "typed insert failed: " + r.Msg + r.Panic
+						if textErr != "" {
+							resp.Setup = fmt.Sprintf("INSERT INTO %s (%s) VALUES (%s): %s (and as typed values: %s)", n, strings.Join(cs, ", "), strings.Join(vs, ", "), textErr, r.Msg+r.Panic)
+						}
 						return resp
 					}
 					continue
